@@ -1,8 +1,9 @@
 From Coq Require Extraction ExtrOcamlBasic.
-From Rpgp Require Import Base.Octets Base.Res Sym.Cfb Kdf.Kdf Key.Lock.
+From Rpgp Require Import Base.Octets Base.Res Sym.Cfb Kdf.Kdf Key.Lock Key.LockRules.
 Extraction Language OCaml.
 Separate Extraction Byte.to_N Byte.of_N
   Cfb.cfb_enc Cfb.cfb_dec Cfb.zeros_n
   Kdf.decode_count Kdf.s2k_derive Kdf.hkdf Kdf.sum16
   Lock.lock_cfb Lock.unlock_cfb Lock.lock_sum Lock.unlock_sum Lock.lock_aead Lock.unlock_aead
-  Lock.aead_info Lock.aead_ad Lock.usage_of Lock.variant_of Lock.variant_ok.
+  Lock.aead_info Lock.aead_ad Lock.usage_of Lock.variant_of Lock.variant_ok
+  LockRules.lock_allowed LockRules.unlock_allowed.
